@@ -14,7 +14,9 @@
     [f] does not trap on those arguments. *)
 From Coq Require Import ZArith List Bool.
 From V Require Import Base.Int Base.IO Spec.Gregorian Model.Date Model.DateExtra
-  Proofs.C08Sweeps Proofs.C08Date Proofs.C08Days Proofs.C08AddDays Proofs.C08.
+  Proofs.C08Sweeps Proofs.C08Date Proofs.C08Days Proofs.C08AddDays Proofs.C08 Proofs.C08Dt.
+From V Require Model.Time Model.DateTime Model.C08.
+Import V.Model.C08.
 Open Scope Z_scope.
 
 (* ---- the canonical encoding: (year, ordinal) decodes to the represented date, or to nothing *)
@@ -202,6 +204,40 @@ Theorem C08_month_num_days : forall m y, 1 <= m <= 12 -> in_i32 y = true ->
   Val (if (m =? 2) && negb (year_in_range y) then None else Some (days_in_month (is_leap y) m)).
 Proof. exact month_num_days_spec. Qed.
 Print Assumptions C08_month_num_days.
+
+(* ---- date-times.  [dz_ok a y o s fr off]: the zone-aware value [a] has the UTC date (y, o), UTC second
+   of day [s], fraction [fr] and the fixed offset [off]; its wall clock shows the date with day number
+   [local_dn y o s off] (possibly one day outside the range of dates) at second [local_secs s off]. *)
+Theorem C08_dt_years_since : forall a y1 o1 s1 f1 off1 b y0 o0 s0 f0 off0,
+  dz_ok a y1 o1 s1 f1 off1 -> dz_ok b y0 o0 s0 f0 off0 ->
+  dz_years_since a b =
+  Val (let '(yy1, m1, d1) := ymd_of_dn (local_dn y1 o1 s1 off1) in
+       let '(yy0, m0, d0) := ymd_of_dn (local_dn y0 o0 s0 off0) in
+       let earlier := (m1 <? m0) || ((m1 =? m0) && ((d1 <? d0) || ((d1 =? d0) &&
+                        ((local_secs s1 off1 <? local_secs s0 off0)
+                         || ((local_secs s1 off1 =? local_secs s0 off0) && (f1 <? f0)))))) in
+       let n := yy1 - yy0 - (if earlier then 1 else 0) in
+       if 0 <=? n then Some n else None).
+Proof. exact dz_years_since_expanded. Qed.
+Print Assumptions C08_dt_years_since.
+
+(* NaiveDateTime: month stepping and date-field replacement act on the date and keep the time of day *)
+Theorem C08_ndt_months : forall a y o n, repr y o (DateTime.nd_date a) -> in_u32 n = true ->
+  DateTime.ndt_checked_add_months a n = Val (with_time_of a (shift_months y o n)) /\
+  DateTime.ndt_checked_sub_months a n = Val (with_time_of a (shift_months y o (- n))).
+Proof. exact ndt_add_months_spec. Qed.
+Print Assumptions C08_ndt_months.
+Theorem C08_ndt_with : forall a y o f x, repr y o (DateTime.nd_date a) -> 0 <= f <= 6 ->
+  DateTime.ndt_with f a x = bind (d_with f (DateTime.nd_date a) x) (fun r => Val (with_time_of a r)).
+Proof. exact ndt_with_spec. Qed.
+Print Assumptions C08_ndt_with.
+
+(* the neighbouring day (used by the wall-clock reading): day number +-1, nothing outside the range *)
+Theorem C08_succ_pred : forall y o d, repr y o d ->
+  succ_opt d = Val (if dn_in_range (dn_of_yo y o + 1) then Some (date_of_dn (dn_of_yo y o + 1)) else None) /\
+  pred_opt d = Val (if dn_in_range (dn_of_yo y o - 1) then Some (date_of_dn (dn_of_yo y o - 1)) else None).
+Proof. exact succ_pred_spec. Qed.
+Print Assumptions C08_succ_pred.
 
 (* ---- the hypotheses are inhabited: 2024-01-31 (+1 month -> leap day), the range ends *)
 Example C08_ex_repr : repr 2024 31 (mkdate 2024 31) /\ repr (-262143) 1 (mkdate (-262143) 1)
